@@ -8,7 +8,7 @@ rows = []
 OOD = json.load(open(os.path.join(HERE, 'seeded', 'out_of_domain.json')))['seeds']
 SCREEN = json.load(open(os.path.join(HERE, 'seeded', 'screening.json'))) if os.path.exists(os.path.join(HERE, 'seeded', 'screening.json')) else {}
 ood_rows = []
-for rnd, incname in ((1, '_incoming'), (2, '_incoming2'), (3, '_incoming3'), (4, '_incoming4'), (5, '_incoming5'), (6, '_incoming6')):
+for rnd, incname in ((1, '_incoming'), (2, '_incoming2'), (3, '_incoming3'), (4, '_incoming4'), (5, '_incoming5'), (6, '_incoming6'), (7, '_incoming7')):
     INC = os.path.join(HERE, 'seeded', incname)
     if not os.path.exists(os.path.join(INC, 'validation.json')):
         continue
